@@ -3,7 +3,7 @@
 From Coq Require Import PeanoNat Lia.
 From Gv Require Import lib.Bytes lib.Json lib.Gql lib.Exec
      C01.ProofsBase C01.ProofsJoin C01.ProofsTwoStep C01.ProofsPlanAlg C01.ProofsPlanGen C01.ProofsTvStatic C01.ProofsTvDefs
-     C01.ProofsPlan2 C01.ProofsFuelSuff C01.ProofsPlan3 C01.ProofsPlan3Main C01.Examples.
+     C01.ProofsPlan2 C01.ProofsFuelSuff C01.ProofsPlan3 C01.ProofsPlan3Main C01.Examples C01.ExamplesWf C01.ExamplesAbstract.
 Open Scope N_scope.
 
 Definition bMaker : bytes := [77;97;107;101;114].
@@ -146,4 +146,76 @@ Example tv3_sound_applies_req : forall F, (ds_need S0 ds3_req <= F)%nat ->
   sres_weq (gateway3 U0 S0 subs3 [] [] [] e_root F F true 8 ds3_req) (mono_client3 U0 S0 [] [] [] e_root F ds3_req).
 Proof.
   intros F HF. apply (tv3_sound S0 subs3 [] [] 8 decls0 rdecls3 true 8 ds3_req ex_tv3_req_accepts U0 e_root ex_tv3_req_contract eq_refl F HF).
+Qed.
+
+(* ---- a position resolved per RUNTIME type ([PAbs]): the configuration of ExamplesAbstract.v
+        (interface Node; A, B implement Node; subgraph 0 owns Query.node and A.a1, subgraph 1 owns A.a2 and B.b1) ---- *)
+Definition subsA : list schema := [SA1; SA2].
+Definition declsA : list (name * list name) := [(bA, [bid]); (bB, [bid])].
+(* client:  { node { ... on A { a1 a2 } ... on B { b1 } } }
+   real plan: root fetch on 0:  { node { __typename ... on A { a1 __typename id } ... on B { __typename id } } }
+              entity fetch at node on 1, for A:  ... on A { __typename a2 }        for B:  ... on B { __typename b1 } *)
+Definition cselN : list selection := [SInline (Some bA) [] [fld ba1 []; fld ba2 []]; SInline (Some bB) [] [fld bb1f []]].
+Definition ptA : ptree := PT [(0%nat, PKeep (fld ba1 [])); (1%nat, PKeep (fld ba2 []))] [([(0%nat, [bid])], 1%nat, [bid])].
+Definition ptB : ptree := PT [(1%nat, PKeep (fld bb1f []))] [([(0%nat, [bid])], 1%nat, [bid])].
+Definition rselN : list selection := [SInline (Some bA) [] (pt_proj ptA); SInline (Some bB) [] (pt_proj ptB)].
+Definition ds4_0 : list rfield3 :=
+  [{| r3_root := 0%nat; r3_item := PAbs None bnode [] (ShObj false) bNode cselN rselN [(bA, false, ptA); (bB, false, ptB)] |}].
+
+Example ex_tv4_accepts : tv4_static_b SA0 subsA [] [] [] 8 declsA [] 8 ds4_0 = true.
+Proof. vm_compute. reflexivity. Qed.
+Example ex_tv4_contract_A : univ4_contract_b SA0 subsA declsA [] (UA bA bka) = true.
+Proof. vm_compute. reflexivity. Qed.
+Example ex_tv4_contract_B : univ4_contract_b SA0 subsA declsA [] (UA bB bkb) = true.
+Proof. vm_compute. reflexivity. Qed.
+Example ex_tv4_client_doc : client_doc3 [] [] ds4_0 = query_doc [] [fld bnode cselN] [].
+Proof. reflexivity. Qed.
+Example ex_tv4_requests :
+  model_requests3s 2 [] [] true ds4_0 =
+  [MRoot3 0 (query_doc [] [fld bnode [SInline (Some bA) [] ([fld ba1 []] ++ key_sels [bid]); SInline (Some bB) [] (key_sels [bid])]] []);
+   MEntity3 [bnode] 1 (entities_doc [rep_vd] bA [tn_sel; fld ba2 []] []) [s_typename; bid];
+   MEntity3 [bnode] 1 (entities_doc [rep_vd] bB [tn_sel; fld bb1f []] []) [s_typename; bid]].
+Proof. vm_compute. reflexivity. Qed.
+Example ex_tv4_run_A :
+  gateway3 (UA bA bka) SA0 subsA [] [] [] (rootN bA bka) 200 200 true 8 ds4_0 =
+  (Some [(bnode, JObj [(ba1, JStr bx); (ba2, JStr by_)])], []) /\
+  mono_client3 (UA bA bka) SA0 [] [] [] (rootN bA bka) 200 ds4_0 = (Some [(bnode, JObj [(ba1, JStr bx); (ba2, JStr by_)])], []).
+Proof. split; vm_compute; reflexivity. Qed.
+Example ex_tv4_run_B :
+  gateway3 (UA bB bkb) SA0 subsA [] [] [] (rootN bB bkb) 200 200 true 8 ds4_0 =
+  (Some [(bnode, JObj [(bb1f, JStr by_)])], []) /\
+  mono_client3 (UA bB bkb) SA0 [] [] [] (rootN bB bkb) 200 ds4_0 = (Some [(bnode, JObj [(bb1f, JStr by_)])], []).
+Proof. split; vm_compute; reflexivity. Qed.
+
+(* the planner's own __typename (flag true): B's alternative has neither a key nor a client __typename;
+   client:  { node { ... on A { a1 a2 } ... on B { id } } } *)
+Definition cselH : list selection := [SInline (Some bA) [] [fld ba1 []; fld ba2 []]; SInline (Some bB) [] [fld bid []]].
+Definition ptBh : ptree := PT [(0%nat, PKeep (fld bid []))] [].
+Definition rselH : list selection := [SInline (Some bA) [] (pt_proj ptA); SInline (Some bB) [] (tn_sel :: pt_proj ptBh)].
+Definition ds4_h : list rfield3 :=
+  [{| r3_root := 0%nat; r3_item := PAbs None bnode [] (ShObj false) bNode cselH rselH [(bA, false, ptA); (bB, true, ptBh)] |}].
+Example ex_tv4_hidden_accepts : tv4_static_b SA0 subsA [] [] [] 8 declsA [] 8 ds4_h = true.
+Proof. vm_compute. reflexivity. Qed.
+Example ex_tv4_hidden_run_B :
+  gateway3 (UA bB bkb) SA0 subsA [] [] [] (rootN bB bkb) 200 200 true 8 ds4_h = (Some [(bnode, JObj [(bid, JStr bkb)])], []) /\
+  mono_client3 (UA bB bkb) SA0 [] [] [] (rootN bB bkb) 200 ds4_h = (Some [(bnode, JObj [(bid, JStr bkb)])], []).
+Proof. split; vm_compute; reflexivity. Qed.
+
+(* rejected: an alternative missing (no plan tree for B), the wrong tree under a type, and a tree with such a position
+   given to the validator of trees WITHOUT them *)
+Example ex_tv4_rejects_missing :
+  tv4_static_b SA0 subsA [] [] [] 8 declsA [] 8
+    [{| r3_root := 0%nat; r3_item := PAbs None bnode [] (ShObj false) bNode cselN rselN [(bA, false, ptA)] |}] = false.
+Proof. vm_compute. reflexivity. Qed.
+Example ex_tv4_rejects_swapped :
+  tv4_static_b SA0 subsA [] [] [] 8 declsA [] 8
+    [{| r3_root := 0%nat; r3_item := PAbs None bnode [] (ShObj false) bNode cselN rselN [(bA, false, ptB); (bB, false, ptA)] |}] = false.
+Proof. vm_compute. reflexivity. Qed.
+Example ex_tv3_rejects_abs : tv3_static_b SA0 subsA [] [] [] 8 declsA [] 8 ds4_0 = false.
+Proof. vm_compute. reflexivity. Qed.
+
+Example tv4_sound_applies : forall F, (ds_need SA0 ds4_0 <= F)%nat ->
+  sres_weq (gateway3 (UA bA bka) SA0 subsA [] [] [] (rootN bA bka) F F true 8 ds4_0) (mono_client3 (UA bA bka) SA0 [] [] [] (rootN bA bka) F ds4_0).
+Proof.
+  intros F HF. apply (tv4_sound SA0 subsA [] [] 8 declsA [] true 8 ds4_0 ex_tv4_accepts (UA bA bka) (rootN bA bka) ex_tv4_contract_A eq_refl F HF).
 Qed.
